@@ -548,7 +548,8 @@ example : ∃ (st : Afkak.ClientNet.St) (q : Afkak.ClientNet.Req),
 
 /-- C10 with RE-ENTRANT callbacks, unconditionally (formerly the open statement): for every
     configuration and every event list of the re-entrant model, from some amount of fuel on the
-    stream monitor `r10` accepts the trace — whatever the callbacks do: once a `close()` has gone ahead
+    stream monitor `r10` accepts the trace — whatever the callbacks do, with the endpoint that connects
+    from inside `cancel()` and with endpoints that answer `connect()` synchronously (`syncMode`): once a `close()` has gone ahead
     no connection attempt, timer or write follows; no request is written twice on one connection; a
     request whose Deferred has fired is never written afterwards; `down` is reported at most once and
     only after `close()`.  (`fuel_suffices`: the interpreter terminates; `C10_reentrant_partial`.) -/
